@@ -62,6 +62,7 @@ theorem stmt_of (procs : List Proc) (fuel : Nat)
   | exitFor => simpa [exec] using h
   | end_ => simpa [exec] using h
   | exitSub => simpa [exec] using h
+  | assignIdx base lo hi i e => simpa [exec] using h
   | call p args =>
     cases hp : procs[p]? with
     | none => simpa [exec, hp] using h
